@@ -1044,4 +1044,4 @@ def search(ctx):
     core.run_given(ctx, "init", init_cases(), lambda c: check(ctx, c), ctx.n(500, 5000))
     core.run_given(ctx, "tomo", tomo_cases(), lambda c: check(ctx, c), ctx.n(300, 3000))
     core.run_given(ctx, "tomo_multi", tomo_multi_cases(), lambda c: check(ctx, c), ctx.n(350, 3500))
-    core.run_given(ctx, "recon", recon_cases(ctx), lambda c: check(ctx, c), ctx.n(200, 2000))
+    core.run_given(ctx, "recon", recon_cases(ctx), lambda c: check(ctx, c), ctx.n(150, 1500))
